@@ -1183,6 +1183,96 @@ func c07Gen(c *Ctx) {
 			return
 		}
 	}
+	c07EditsBetweenEncodings(c, u)
+}
+
+// c07EditsBetweenEncodings: in the histories above the database object is encoded after EVERY operation (that is how
+// the harness looks at it).  A program encodes a database, edits it several times and encodes it again: here the object
+// is encoded only at the observation points of the history (operation B: Bytes / Marshal / WriteSignatureDatabase / the
+// lists' own Bytes(), the object stays in use; operation E: encode, decode and go on with the decoded database) and
+// between them it is only edited - the harness takes its own view from the exported fields.  Random histories with
+// observations after about every third operation, and in every history a REPLACEMENT block: a list of 2..4 entries of
+// one size is built, encoded, then 1..3 times one entry is removed and another entry of the same type and size (other
+// data, or the same data under another owner) is appended - the list is as long as it was - and the database is encoded
+// again; also remove-only / append-only edits between two encodings.  Oracle at every observation: the bytes written
+// decode (Spec codec) to exactly the lists the object holds at that moment.
+func c07EditsBetweenEncodings(c *Ctx, u *c09Universe) {
+	sub := &Ctx{Rng: mrand.New(mrand.NewSource(c.Seed*982451653 + 37 + int64(c.Shard)*1000003)), Thorough: c.Thorough}
+	rng := sub.Rng
+	for i := 0; i < c.N(160, 8000) && c.NFailures() < 8; i++ {
+		h := genHistory(sub, u, c.P(8, 24))
+		var ops []interface{}
+		for _, o := range h["ops"].([]interface{}) {
+			ops = append(ops, o)
+			if rng.Intn(3) == 0 {
+				ops = append(ops, fmt.Sprintf("B,%d", rng.Intn(4)))
+			}
+		}
+		// the replacement block
+		t, pool := tSHA256, [][]byte{u.data[0], u.data[1], u.data[2], u.data[3]}
+		switch i % 3 {
+		case 1:
+			t, pool = tX509, [][]byte{u.data[4], u.data[6]}
+		case 2:
+			t, pool = tEXT, [][]byte{u.ext[0], u.ext[1]}
+		}
+		var entries [][2][]byte // every (owner, data) pair of one size
+		for _, d := range pool {
+			if len(d) != len(pool[0]) {
+				continue
+			}
+			for _, o := range u.owners[:2] {
+				entries = append(entries, [2][]byte{o, d})
+			}
+		}
+		if len(entries) < 4 { // the pool holds no two values of one size: hashes
+			t, entries = tSHA256, nil
+			for _, d := range u.data[:4] {
+				for _, o := range u.owners[:2] {
+					entries = append(entries, [2][]byte{o, d})
+				}
+			}
+		}
+		rng.Shuffle(len(entries), func(a, b int) { entries[a], entries[b] = entries[b], entries[a] })
+		n := 2 + rng.Intn(min(3, len(entries)-2))
+		in, out := entries[:n], entries[n:]
+		var blk []interface{}
+		for _, e := range in {
+			blk = append(blk, fmt.Sprintf("A,%s,%s,%s", hx(t), hx(e[0]), hx(e[1])))
+		}
+		blk = append(blk, fmt.Sprintf("B,%d", i%4))
+		for k := 1 + rng.Intn(3); k > 0 && len(out) > 0; k-- {
+			j := rng.Intn(len(in))
+			gone, come := in[j], out[0]
+			switch rng.Intn(6) {
+			case 0: // remove only
+				blk = append(blk, fmt.Sprintf("R,%s,%s,%s", hx(t), hx(gone[0]), hx(gone[1])))
+				in, out = append(append([][2][]byte{}, in[:j]...), in[j+1:]...), append(out, gone)
+			case 1: // append only
+				blk = append(blk, fmt.Sprintf("A,%s,%s,%s", hx(t), hx(come[0]), hx(come[1])))
+				in, out = append(in, come), out[1:]
+			default: // one out, one in (in either order)
+				r, a := fmt.Sprintf("R%s,%s,%s,%s", []string{"", "S"}[rng.Intn(2)], hx(t), hx(gone[0]), hx(gone[1])), fmt.Sprintf("A%s,%s,%s,%s", []string{"", "S"}[rng.Intn(2)], hx(t), hx(come[0]), hx(come[1]))
+				if rng.Intn(3) == 0 {
+					blk = append(blk, a, r)
+				} else {
+					blk = append(blk, r, a)
+				}
+				in = append(append(append([][2][]byte{}, in[:j]...), in[j+1:]...), come)
+				out = append(out[1:], gone)
+			}
+			if len(in) < 2 {
+				break
+			}
+			blk = append(blk, fmt.Sprintf("B,%d", rng.Intn(4)))
+		}
+		// in front of, behind or inside the random history
+		at := []int{0, len(ops), rng.Intn(len(ops) + 1)}[rng.Intn(3)]
+		all := append(append(append([]interface{}{}, ops[:at]...), blk...), ops[at:]...)
+		h["ops"] = append(all, fmt.Sprintf("B,%d", (i/4)%4), "E")
+		h["observe"] = "lazy"
+		historyShrunk(c, h, "C07")
+	}
 }
 
 func c08Eval(c *Ctx, cs Case) { streamEval(c, cs, "C08") }
@@ -1438,7 +1528,7 @@ func c08HeaderAndShortLists(c *Ctx, emit func(cls string, b []byte)) {
 
 func init() {
 	register("C07", &PropDef{
-		Rule:   "well-formed streams: 0..6 (thorough 12) lists over X.509 (any certificate size, 0-5 entries), SHA-256 (up to 40 entries), externally-managed, plus valid-but-undecodable / unknown / headered lists in a quarter of the streams; the .esl files and captured variables of the repository; databases built by random append/remove/append-list histories and then encoded and decoded, two thirds of them starting with a list that holds one entry more than once (decoded [A,B,A] / [a,b,a,a], or built by SignatureList.AppendBytes from the DER and the PEM form of one certificate) or with PEM handed to the list-level API, followed by removals of that entry; and list-level appends to decoded lists that hold no entry but carry a signature size; one sixth of the histories start with an EXTERNALLY-MANAGED list built by the database-level Append or by the list-level AppendBytes + AppendList from a one-byte value (the only well-formed size) and a value of 0, 2 or 32 bytes in either order, encoded and decoded after every step, and the random histories use that type with the same five values (F37). Oracle on every encode-decode step: when all lists of the built database are of the types the decoder handles (X.509, SHA-256, externally-managed) the library's own decoder must accept the encoding, and the decoded database must encode to the same bytes (an equal database). Every stream is decoded through a bytes.Reader, a bytes.Buffer, a one-byte-at-a-time reader, a data-with-EOF reader or a half-count reader (chosen by a checksum of the input) over a private copy that is overwritten before the decoded database is inspected. SIZE CLASSES (streams kept in the case as a description - layout and salt - and built when evaluated; all entries pseudo-random and different, so every decoded entry is held against its own bytes of the input and the first differing entry is named): SHA-256, X.509 and externally-managed lists with 127 / 128 / 129 / 256 / 257 / 260 / 385 / 512 / 1023 entries (counts around powers of two, where a decoder that reads entries in batches changes its path), ONE list whose body exceeds 64 KiB (1366, 1365+1366, 2200 SHA-256 entries; 4 certificates of 20 000 bytes, 3 of 40 000, 2 of exactly 64 KiB, of 64 KiB + 1 and of 90 000 bytes); LIST BOUNDARIES AT POWERS OF TWO: streams in which a list ends exactly at offset 2^12, 2^16 and 2^20 (a stream longer than 1 MiB; thorough: 2^8..2^22, 2^24), followed by a further list or lists (which must be decoded), by nothing, by bytes that are no list or by a cut-off header (an error, never a shorter database). Streams above 100 KiB are judged against the harness's own walk of the stream (walkSpec, written from the layout in the statement); on every smaller stream the Lean Spec codec is asked as well and the two must agree (a disagreement is a tie failure). ENTRY CLASSES that random bytes never produce (240 streams, a list of the class among 0..2 ordinary ones): one owner+data entry two or more times in a list (adjacent or apart), X.509 entries whose bytes are PEM text (distinct or repeated), equal data under different owners / one owner with different data, all-zero entries. READERS THAT FAIL: the fixtures and 60 generated well-formed streams are decoded through a reader that delivers the first k bytes and then fails with a non-EOF error (I/O error, closed file, deadline, closed pipe; the error arriving after or together with the last bytes) for k = 0, every boundary between two lists and the end of the stream (all kinds, both modes) and seven positions inside every list; oracle: a nil error only together with exactly the lists of the whole stream - a failure must not be taken for the end of the database. SEVERAL DECODERS AT THE SAME TIME (120 groups of 2 or 3 streams, two thirds of them of one layout with other owners and data): each stream is decoded on its own goroutine through a reader that parks inside Read - before it touches the destination, or after the bytes are in place but before Read returns - and hands control to the next decoder following a switch plan that is part of the case (every parking point, every 2nd / 3rd, mixed, random; full reads, 1- and 5-byte reads), so exactly one goroutine runs at a time and every run is deterministic; oracle: every call returns what the same call through the same reader returns alone. ENTRY POINTS: on every evaluated stream SignatureDatabase.Unmarshal (into a receiver that held another list; same verdict, same lists, whole buffer consumed), ReadSignatureList (the first list, exactly ListSize bytes consumed; io.EOF on empty input), Marshal into an empty buffer and into one that already holds content (that content stays, the encoding follows), WriteSignatureDatabase into a plain io.Writer and the concatenation of SignatureList.Bytes() must agree with ReadSignatureDatabase / Bytes(), so the oracles apply to them too. The histories use, for every third append / removal / query, the entry points AppendSignature / RemoveSignature / SigDataExists. Non-trivial: non-empty stream; distinct = distinct byte strings / histories / (streams, plan) groups.",
+		Rule:   "well-formed streams: 0..6 (thorough 12) lists over X.509 (any certificate size, 0-5 entries), SHA-256 (up to 40 entries), externally-managed, plus valid-but-undecodable / unknown / headered lists in a quarter of the streams; the .esl files and captured variables of the repository; databases built by random append/remove/append-list histories and then encoded and decoded, two thirds of them starting with a list that holds one entry more than once (decoded [A,B,A] / [a,b,a,a], or built by SignatureList.AppendBytes from the DER and the PEM form of one certificate) or with PEM handed to the list-level API, followed by removals of that entry; and list-level appends to decoded lists that hold no entry but carry a signature size; one sixth of the histories start with an EXTERNALLY-MANAGED list built by the database-level Append or by the list-level AppendBytes + AppendList from a one-byte value (the only well-formed size) and a value of 0, 2 or 32 bytes in either order, encoded and decoded after every step, and the random histories use that type with the same five values (F37). Oracle on every encode-decode step: when all lists of the built database are of the types the decoder handles (X.509, SHA-256, externally-managed) the library's own decoder must accept the encoding, and the decoded database must encode to the same bytes (an equal database). Every stream is decoded through a bytes.Reader, a bytes.Buffer, a one-byte-at-a-time reader, a data-with-EOF reader or a half-count reader (chosen by a checksum of the input) over a private copy that is overwritten before the decoded database is inspected. SIZE CLASSES (streams kept in the case as a description - layout and salt - and built when evaluated; all entries pseudo-random and different, so every decoded entry is held against its own bytes of the input and the first differing entry is named): SHA-256, X.509 and externally-managed lists with 127 / 128 / 129 / 256 / 257 / 260 / 385 / 512 / 1023 entries (counts around powers of two, where a decoder that reads entries in batches changes its path), ONE list whose body exceeds 64 KiB (1366, 1365+1366, 2200 SHA-256 entries; 4 certificates of 20 000 bytes, 3 of 40 000, 2 of exactly 64 KiB, of 64 KiB + 1 and of 90 000 bytes); LIST BOUNDARIES AT POWERS OF TWO: streams in which a list ends exactly at offset 2^12, 2^16 and 2^20 (a stream longer than 1 MiB; thorough: 2^8..2^22, 2^24), followed by a further list or lists (which must be decoded), by nothing, by bytes that are no list or by a cut-off header (an error, never a shorter database). Streams above 100 KiB are judged against the harness's own walk of the stream (walkSpec, written from the layout in the statement); on every smaller stream the Lean Spec codec is asked as well and the two must agree (a disagreement is a tie failure). ENTRY CLASSES that random bytes never produce (240 streams, a list of the class among 0..2 ordinary ones): one owner+data entry two or more times in a list (adjacent or apart), X.509 entries whose bytes are PEM text (distinct or repeated), equal data under different owners / one owner with different data, all-zero entries. READERS THAT FAIL: the fixtures and 60 generated well-formed streams are decoded through a reader that delivers the first k bytes and then fails with a non-EOF error (I/O error, closed file, deadline, closed pipe; the error arriving after or together with the last bytes) for k = 0, every boundary between two lists and the end of the stream (all kinds, both modes) and seven positions inside every list; oracle: a nil error only together with exactly the lists of the whole stream - a failure must not be taken for the end of the database. SEVERAL DECODERS AT THE SAME TIME (120 groups of 2 or 3 streams, two thirds of them of one layout with other owners and data): each stream is decoded on its own goroutine through a reader that parks inside Read - before it touches the destination, or after the bytes are in place but before Read returns - and hands control to the next decoder following a switch plan that is part of the case (every parking point, every 2nd / 3rd, mixed, random; full reads, 1- and 5-byte reads), so exactly one goroutine runs at a time and every run is deterministic; oracle: every call returns what the same call through the same reader returns alone. ENTRY POINTS: on every evaluated stream SignatureDatabase.Unmarshal (into a receiver that held another list; same verdict, same lists, whole buffer consumed), ReadSignatureList (the first list, exactly ListSize bytes consumed; io.EOF on empty input), Marshal into an empty buffer and into one that already holds content (that content stays, the encoding follows), WriteSignatureDatabase into a plain io.Writer and the concatenation of SignatureList.Bytes() must agree with ReadSignatureDatabase / Bytes(), so the oracles apply to them too. EDITS BETWEEN TWO ENCODINGS OF ONE DATABASE OBJECT (160 histories, thorough 8000): in these the object is encoded only at the observation points of the history - operation B (Bytes / Marshal / WriteSignatureDatabase / the lists' own Bytes(), rotating; the object stays in use) after about every third operation and operation E - and is only edited between them (the harness takes its own view from the exported fields of the lists instead of calling Bytes() after every step); each history also holds a REPLACEMENT block on one list of a handled type (SHA-256, X.509, externally-managed): 2..4 entries of one size appended, the database encoded, then 1..3 times an entry removed and another entry of the same type and size appended (either order; so the list is exactly as long as at the last encoding), sometimes a removal or an append alone, the database encoded again after each; oracle at every observation: the bytes written decode (Spec codec) to exactly the lists, owners and data the object holds at that moment. The histories use, for every third append / removal / query, the entry points AppendSignature / RemoveSignature / SigDataExists. Non-trivial: non-empty stream; distinct = distinct byte strings / histories / (streams, plan) groups.",
 		Assume: []string{"`handled` list types are X.509, SHA-256 (size 48) and externally-managed (size 17) with an empty header, as in the decoder's switch"},
 		Eval:   c07Eval, Gen: c07Gen,
 	})
